@@ -49,7 +49,7 @@ class Untranslatable(Exception):
 COQTY = {"node": "nat", "optnode": "option nat", "nodes": "list nat", "bool": "bool", "hist": "list (nat * list nat)",
          "nat": "nat", "trn": "trans", "trns": "list trans", "trnss": "list (list trans)", "str": "string", "strs": "list string",
          "onmap": "list (string * list trans)", "otrn": "option trans", "inv": "invoke", "invs": "list invoke", "event": "event",
-         "ids": "list nat", "cache": "unit", "decision": "on_done_decision"}
+         "ids": "list nat", "cache": "unit", "decision": "on_done_decision", "descent": "descent_decision"}
 ELEM = {"nodes": "node", "trns": "trn", "trnss": "trns", "strs": "str", "invs": "inv"}
 NIL = {"nodes": "(@nil nat)", "trns": "(@nil trans)", "ids": "(@nil nat)", "strs": "(@nil string)"}
 KINDS = {"parallel": "is_parallel", "compound": "is_compound", "history": "is_history", "atomic": "is_atomic",
@@ -105,11 +105,34 @@ class TreeFn:
         if isinstance(e, ast.Name):
             if e.id in env:
                 return self.v(e.id), env[e.id]
+            if e.id == "DNONE__":
+                return "DescendNone", "descent"
+            if e.id == "DERROR__":
+                return "DescendError", "descent"
             if e.id == "COMPLETE__":
                 return "DComplete", "decision"
             if e.id == "NOTHING__":
                 return "DNothing", "decision"
             self.fail(e, "unknown name")
+        if isinstance(e, ast.Call) and isinstance(e.func, ast.Name) and e.func.id == "DESCEND__" and len(e.args) == 1:
+            a, ta = self.expr(e.args[0], env)
+            if ta != "nodes":
+                self.fail(e, "DESCEND of " + ta)
+            return f"(DescendInto {a})", "descent"
+        if isinstance(e, (ast.DictComp, ast.SetComp)) and len(e.generators) == 1 and isinstance(e.generators[0].target, ast.Name):
+            # {v.parent.id [: v] for v in l if v.parent is not None} -> the parents;  {v.id for v in l if v.parent is not None} -> those states
+            g = e.generators[0]
+            v = g.target.id
+            key = e.key if isinstance(e, ast.DictComp) else e.elt
+            it, tit = self.iterable(g.iter, env)
+            if tit == "nodes" and len(g.ifs) == 1 and ast.unparse(g.ifs[0]) == f"{v}.parent is not None" \
+                    and (not isinstance(e, ast.DictComp) or ast.unparse(e.value) == v):
+                if ast.unparse(key) == f"{v}.parent.id":
+                    return f"(parents_of m {it})", "nodes"
+                if ast.unparse(key) == f"{v}.id" and isinstance(e, ast.SetComp):
+                    return f"(with_parent m {it})", "nodes"
+            if isinstance(e, ast.DictComp):
+                self.fail(e, "dict comprehension")
         if isinstance(e, ast.Call) and isinstance(e.func, ast.Name) and e.func.id == "FIRE__" and len(e.args) == 1:
             a, ta = self.expr(e.args[0], env)
             if ta != "node":
@@ -152,6 +175,8 @@ class TreeFn:
                 self.fail(e, "attribute of an invoke")
             if t != "node":
                 self.fail(e, f"attribute of {t}")
+            if e.attr == "initial":
+                return f"(n_initial (nd m {recv}))", "optnode"
             if e.attr == "on":
                 return f"(n_on (nd m {recv}))", "onmap"
             if e.attr == "on_done":
@@ -256,6 +281,12 @@ class TreeFn:
             b, tb = self.expr(right, env)
             if tb == "str":
                 return wrap(f"(ev_src_eqb {self.v(left.value.id)} {b})")
+        if isinstance(op, (ast.In, ast.NotIn)) and isinstance(left, ast.Attribute) and left.attr == "id":
+            a, ta = self.expr(left.value, env)
+            b, tb = self.expr(right, env)
+            if ta == "node" and tb == "nodes":
+                return wrap(f"(mem {a} {b})")
+            self.fail(e, "id membership")
         if isinstance(op, (ast.In, ast.NotIn)):
             # id(t) in seen
             if isinstance(left, ast.Call) and isinstance(left.func, ast.Name) and left.func.id == "id" and len(left.args) == 1:
@@ -445,6 +476,12 @@ class TreeFn:
                 fuel = "(S (size m)) " if name in self.known_recursive else ""
                 return f"({cname} {fuel}m {extra}{' '.join(c for c, _ in args)})", rty
             self.fail(e, "method call")
+        if isinstance(f, ast.Attribute) and f.attr == "get" and isinstance(f.value, ast.Attribute) and f.value.attr == "states" \
+                and len(e.args) == 1 and not kw and isinstance(e.args[0], ast.Attribute) and e.args[0].attr == "initial" \
+                and ast.dump(e.args[0].value) == ast.dump(f.value.value):
+            recv, tr = self.expr(f.value.value, env)
+            if tr == "node":
+                return f"(n_initial (nd m {recv}))", "optnode"
         if isinstance(f, ast.Attribute) and f.attr == "startswith" and len(e.args) == 1 and not kw:
             recv, tr = self.expr(f.value, env)
             a, ta = self.expr(e.args[0], env)
@@ -1009,6 +1046,7 @@ def translate_all(src_root=None):
             known_recursive.add(spec["func"])
     out.append(translate_plans(src_root, known, known_params))
     out.append(translate_on_done(src_root, known, known_params, known_recursive))
+    out.append(translate_descent(src_root, known, known_params, known_recursive))
     return "\n".join(out)
 
 
@@ -1213,6 +1251,99 @@ def translate_on_done(src_root, known, known_params, known_recursive):
         fn.known_recursive = known_recursive
         seg = ast.get_source_segment(text, fdef) or ""
         out.append(f"(* {fname} :: {func}  sha256[:16]={hashlib.sha256(seg.encode()).hexdigest()[:16]}: the decision (effects replaced by what they decide) *)")
+        out.append(fn.translate())
+    return "\n".join(out)
+
+
+# ---------------------------------------------------------------------------------------------------------------------
+# _enter_states (both engines' copies): for one state of the list being entered, WHAT is entered below it by default - its
+# initial child, its regions that the list does not name, nothing, or an error.  The effects are dropped / replaced by the
+# decision before the loop body is translated as a function of (states_to_enter, state).
+ENTER_SOURCES = [("base_interpreter.py", "BaseInterpreter", "_enter_states", "descent_async"),
+                 ("sync_interpreter.py", "SyncInterpreter", "_enter_states", "descent_sync")]
+ENTER_EFFECTS = ("_execute_actions", "_schedule_state_tasks", "_check_and_fire_on_done")
+
+
+def _descent_rewrite(stmts, src):
+    def fail(node, why):
+        raise Untranslatable(f"{src}:{getattr(node, 'lineno', '?')}: entry decision: {why}: {ast.unparse(node)[:90]}")
+    out = []
+    for s in stmts:
+        if _is_logger(s) or (isinstance(s, ast.Expr) and isinstance(s.value, ast.Constant)):
+            continue
+        if isinstance(s, ast.Expr):
+            call = s.value.value if isinstance(s.value, ast.Await) else s.value
+            if isinstance(call, ast.Call) and isinstance(call.func, ast.Attribute):
+                txt = ast.unparse(call.func)
+                if txt == "self._active_state_nodes.add":
+                    continue
+                if isinstance(call.func.value, ast.Name) and call.func.value.id == "self" and call.func.attr in ENTER_EFFECTS:
+                    continue
+                if txt == "self._enter_states" and len(call.args) == 2:
+                    out.append(ast.Return(value=ast.Call(func=ast.Name(id="DESCEND__", ctx=ast.Load()), args=[call.args[0]], keywords=[])))
+                    continue
+            fail(s, "statement")
+        if isinstance(s, ast.Raise):
+            if s.exc is None or not ast.unparse(s.exc).startswith("InvalidConfigError("):
+                fail(s, "raise of something else than InvalidConfigError")
+            out.append(ast.Return(value=ast.Name(id="DERROR__", ctx=ast.Load())))
+            continue
+        if isinstance(s, ast.Continue):
+            out.append(ast.Return(value=ast.Name(id="DNONE__", ctx=ast.Load())))
+            continue
+        if isinstance(s, (ast.Assign, ast.AnnAssign)):
+            out.append(s)
+            continue
+        if isinstance(s, ast.If):
+            body = _descent_rewrite(s.body, src)
+            orelse = _descent_rewrite(s.orelse, src)
+            if body or orelse:
+                if not body:
+                    fail(s, "if with an empty then-branch")
+                out.append(ast.If(test=s.test, body=body, orelse=orelse))
+            continue
+        fail(s, "statement")
+    return out
+
+
+def translate_descent(src_root, known, known_params, known_recursive):
+    out = []
+    for fname, cls, func, coqname in ENTER_SOURCES:
+        text = open(os.path.join(src_root, fname), encoding="utf-8").read()
+        module = ast.parse(text)
+        fdef = None
+        for n in module.body:
+            if isinstance(n, ast.ClassDef) and n.name == cls:
+                for f in n.body:
+                    if isinstance(f, (ast.FunctionDef, ast.AsyncFunctionDef)) and f.name == func:
+                        fdef = f
+        if fdef is None:
+            raise Untranslatable(f"{fname}: {func} not found")
+        src = f"{fname}:{func}"
+        body = [st for st in fdef.body if not _is_logger(st) and not (isinstance(st, ast.Expr) and isinstance(st.value, ast.Constant))]
+        loops = [i for i, st in enumerate(body) if isinstance(st, ast.For)]
+        if len(loops) != 1 or loops[0] != len(body) - 1 or ast.unparse(body[-1].target) != "state" or ast.unparse(body[-1].iter) != "states_to_enter":
+            raise Untranslatable(f"{src}: expected the function to end with `for state in states_to_enter:`")
+        prefix = []
+        for st in body[:-1]:
+            tgt = st.targets[0] if isinstance(st, ast.Assign) and len(st.targets) == 1 else getattr(st, "target", None)
+            if isinstance(tgt, ast.Name) and tgt.id == "trigger_event":
+                continue            # which event the entry actions see: an effect detail (property C03), not part of the decision
+            if isinstance(tgt, ast.Name) and tgt.id in ("explicit_children", "explicit_child_ids"):
+                prefix.append(st)
+                continue
+            raise Untranslatable(f"{src}:{st.lineno}: unexpected statement before the loop: {ast.unparse(st)[:80]}")
+        stmts = prefix + _descent_rewrite(body[-1].body, src) + [ast.Return(value=ast.Name(id="DNONE__", ctx=ast.Load()))]
+        synth = ast.FunctionDef(name=func, args=ast.arguments(posonlyargs=[], args=[ast.arg(arg="self"), ast.arg(arg="states_to_enter"), ast.arg(arg="state")],
+                                                               kwonlyargs=[], kw_defaults=[], defaults=[]),
+                                body=stmts, decorator_list=[], lineno=fdef.lineno)
+        ast.fix_missing_locations(synth)
+        spec = dict(func=func, coqname=coqname, params=[("states_to_enter", "nodes"), ("state", "node")], ret="descent", needs=[])
+        fn = TreeFn(synth, spec, src, known)
+        fn.known_params = known_params
+        fn.known_recursive = known_recursive
+        seg = ast.get_source_segment(text, fdef) or ""
+        out.append(f"(* {fname} :: {func}  sha256[:16]={hashlib.sha256(seg.encode()).hexdigest()[:16]}: what is entered by default below one state of the list *)")
         out.append(fn.translate())
     return "\n".join(out)
 
